@@ -24,7 +24,7 @@ def jobs_slow(rng, thorough):
 
 
 def run(ctx: core.Ctx):
-    ctx.lean_stage()
+    ctx.lean_stage(extra_props=("Tie",))
     b2check.run_b2(ctx, jobs, ["C12"], label="long idle sessions")
     b2check.run_b2(ctx, jobs_slow, MONS, label="slow (blocking) writes, monitor only", accept=False)
     b2check.run_b2(ctx, lambda rng, th: [(gen.conn_busy_callback(rng), rng.randrange(10 ** 9), rng.choice([0, 3])) for _ in range(3000 if th else 100)],
